@@ -2,6 +2,7 @@
 import ast
 
 from ..rules import must_precede, must_follow, weak_orderings
+from ..pathcond import inline, reach_under
 from ..cfg import cfg_of, always_raises
 from ..effects import MUTATING
 from ..astutil import dotted, get_arg, derived, norm, enclosing, names_in, defs_of, assignments
@@ -270,22 +271,27 @@ def truncate_rules(ctx):
         in_try = any(isinstance(p, ast.Try) and fld == 'body' and
                      any(h.type is None or 'IndexError' in norm(h.type) or norm(h.type) in ('Exception', 'BaseException')
                          for h in p.handlers) for p, fld in enclosing(f.node, t))
-        for p, fld in enclosing(f.node, t):
-            if not isinstance(p, ast.If) or key not in norm(p.test) or not any(l in norm(p.test) for l in lens):
-                continue
-            res = {}
-            for case, (va, vl) in {'equal': (3, 3), 'shorter': (1, 3)}.items():
-                env = {l: vl for l in lens}
-                env[key] = va
+        # path conditions (any layout: enclosing if, guard clause with early return, either polarity)
+        g_ = cfg_of(f)
+        res = {}
+        for case, (va, vl) in {'equal': (3, 3), 'shorter': (1, 3)}.items():
+            env = {l: vl for l in lens}
+            env[key] = va
+            res[case] = g_.node_for(t) in reach_under(f, _trunc.folder(env, f))
+        mentions = [n for n in own_nodes(f.node) if isinstance(n, ast.If) and key in norm(inline(f, n.test)) and
+                    any(l in norm(inline(f, n.test)) for l in lens)]
+        if res['equal'] is False and res['shorter'] is True:
+            verdict = True
+        elif mentions and res['equal'] and res['shorter']:
+            # a test relates the cut point to the values length but could not be folded
+            from .C20 import _NoFold
+            undecided = False
+            for n in mentions:
                 try:
-                    v = bool(fold(p.test, env))
-                    res[case] = v if fld == 'body' else not v
+                    fold(inline(f, n.test), {**{l: 3 for l in lens}, key: 3})
                 except Exception:
-                    res[case] = None
-            if res['equal'] is False and res['shorter'] is True:
-                verdict = True
-            elif None in res.values() and verdict is None:
-                verdict = 'unknown'
+                    undecided = True
+            verdict = 'unknown' if undecided else None
         if verdict == 'unknown' and not in_try:
             ctx.assume('R-BELIEF', 'D7', f, t, 'noop-values-truncation',
                        'the values truncation is skipped when the cut point equals the current values length',
